@@ -184,6 +184,8 @@ pub struct Stage {
     /// what each member showed in the last painted frame, and whether that frame was cut at the
     /// terminal height
     pub last_painted: std::collections::BTreeMap<usize, Vec<String>>,
+    /// renders (writes of the observation key) of all bars before the current call
+    pub renders0: usize,
     pub last_frame_cut: bool,
 }
 
@@ -263,6 +265,7 @@ impl Stage {
             last_io_err: None,
             shown_override: None,
             last_painted: Default::default(),
+            renders0: 0,
             last_frame_cut: false,
         }
     }
@@ -419,6 +422,7 @@ impl Stage {
         self.term.set_op(self.op_idx);
         let calls0 = self.term.n_calls();
         let flush0 = self.term.flushes();
+        self.renders0 = self.bars.iter().map(|s| s.obs.lock().unwrap().writes.len()).sum();
         let mut res = OpResult {
             skipped: false,
             flushed: false,
@@ -819,7 +823,11 @@ impl Stage {
             }
             _ => {}
         });
-        drop(pb);
+        // (this clone may be the last handle: its drop paints the final frame)
+        let pr = match (pr, call(move || drop(pb))) {
+            (Err(p), _) | (Ok(()), Err(p)) => Err(p),
+            _ => Ok(()),
+        };
         if let Err(p) = pr {
             res.panic = Some(p);
         }
@@ -1006,6 +1014,28 @@ impl Stage {
         }
         if res.panic.is_some() {
             return;
+        }
+        if self.term.is_pty() && !res.flushed {
+            // pty mode sees frames as bytes arriving on the master side; a frame without a single
+            // visible byte (only empty lines fit, or nothing at all) is invisible there. A bar
+            // rendered during this call: on a target without refresh limiter the frame was
+            // painted (the region is on the screen, dropped bars were reaped); with a limiter
+            // it is impossible to tell
+            let renders: usize = self.bars.iter().map(|s| s.obs.lock().unwrap().writes.len()).sum();
+            if renders > self.renders0 {
+                if self.hz == 0 {
+                    if op.k != "mp_clear" {
+                        self.region_painted = true;
+                        self.unreaped_possible = false;
+                    }
+                    self.removed_since_paint = false;
+                    self.retire_leading(!matches!(op.k.as_str(), "drop" | "drop_all"));
+                    r.probe("pty_invisible_frame");
+                } else {
+                    self.out_of_scope = Some(format!("{at}: pty mode cannot tell whether a frame without visible bytes was painted"));
+                    return;
+                }
+            }
         }
         let forced_mp = matches!(op.k.as_str(), "mp_println" | "mp_suspend" | "mp_clear");
         let forced = forced_mp || bar.map_or(false, |(_, f, _)| f);
